@@ -36,7 +36,7 @@ def xr_case(draw, nmin=1):
             "name": draw(st.sampled_from(["field", "m", "mag_1"])),
             # an identical DataArray whose coords mapping lists the coordinates in another order
             "coords_order": draw(st.sampled_from(["as-exported", "as-exported", "reversed", "shuffled", "reassigned"])),
-            "coords_seed": draw(st.integers(0, 1000))}
+            "coords_seed": draw(st.integers(0, 1000)), "nonfinite": draw(st.integers(0, 3)) == 0}
 
 
 def build(case):
@@ -46,6 +46,10 @@ def build(case):
     n = tuple(g["n"])
     mesh = gen.build_mesh(g)
     arr = gen.make_array(case["seed"], (*n, case["k"]), "int", case["dtype"] if case["dtype"] != "int" else "float")
+    if case.get("nonfinite") and case["dtype"] in ("float", "complex"):
+        flat = arr.reshape(-1)
+        for j, v in enumerate((float("nan"), float("inf"), float("-inf"), -0.0)):
+            flat[(case["seed"] + 7 * j) % flat.size] = v
     dt = {"float": None, "complex": np.complex128, "int": np.int64}[case["dtype"]]
     if case["dtype"] == "int":
         arr = arr.astype(np.int64)
@@ -82,9 +86,9 @@ def check_export(case):
             raise Violation("export-coord-units", f"dim {dim}: {xa[dim].attrs.get('units')!r} vs {units[d]!r}")
     if case["k"] > 1:
         require(list(xa["vdims"].values) == list(f.vdims), "export-vdims", f"{list(xa['vdims'].values)}")
-        require(np.array_equal(xa.values, arr), "export-values")
+        require(np.array_equal(xa.values, arr, equal_nan=True), "export-values")
     else:
-        require(np.array_equal(xa.values, arr[..., 0]), "export-values")
+        require(np.array_equal(xa.values, arr[..., 0], equal_nan=True), "export-values")
     a = xa.attrs
     require(np.array_equal(a["cell"], mesh.cell), "export-attr-cell")
     require(np.array_equal(a["pmin"], mesh.region.pmin) and np.array_equal(a["pmax"], mesh.region.pmax), "export-attr-corners")
@@ -93,7 +97,7 @@ def check_export(case):
     require(a["tolerance_factor"] == mesh.region.tolerance_factor, "export-attr-tolerance")
     xa2 = f.to_xarray(unit="kA/m")
     require(xa2.attrs["units"] == "kA/m", "export-unit-override")
-    require(np.array_equal(f.array, arr), "export-modified-field")
+    require(np.array_equal(f.array, arr, equal_nan=True), "export-modified-field")
 
 
 def check_export_after_mutation(case):
@@ -209,9 +213,9 @@ def check_roundtrip(case):
     if f.vdims is not None:
         require(list(back.vdims) == list(f.vdims), "import-labels", f"{back.vdims} vs {f.vdims}")
     require(back.array.dtype == f.array.dtype, "import-dtype", f"{back.array.dtype} vs {f.array.dtype}")
-    require(np.array_equal(back.array, arr), "import-values")
+    require(np.array_equal(back.array, arr, equal_nan=True), "import-values")
     if rm == "none":
-        require(back == f and back.mesh == mesh, "import-not-equal")
+        require((back == f or bool(np.isnan(arr).any())) and back.mesh == mesh, "import-not-equal")
 
 
 @st.composite
